@@ -26,20 +26,27 @@ class Driver:
             raise SystemExit(2)
         self.built = True
 
-    def run_many(self, scripts):
+    def run_many(self, scripts, timeout=600):
         self.build()
         if not scripts:
             return []
         inp = '\n'.join(json.dumps(s) for s in scripts) + '\n'
-        p = subprocess.run([self.bin], input=inp, stdout=subprocess.PIPE, stderr=subprocess.PIPE, text=True)
+        try:
+            p = subprocess.run([self.bin], input=inp, stdout=subprocess.PIPE, stderr=subprocess.PIPE, text=True, timeout=timeout)
+        except subprocess.TimeoutExpired:
+            if len(scripts) == 1:
+                return [[{'crash': 'native run did not terminate within %ds' % timeout}]]
+            raise
+        if p.returncode != 0 and len(scripts) == 1:
+            return [[{'crash': 'native run died with status %d: %s' % (p.returncode, p.stderr[-200:])}]]
         self.calls += len(scripts)
         outs = [json.loads(l) for l in p.stdout.split('\n') if l.strip()]
         if len(outs) != len(scripts):
             raise RuntimeError('driver produced %d results for %d scripts: %s' % (len(outs), len(scripts), p.stderr[-500:]))
         return outs
 
-    def run(self, script):
-        return self.run_many([script])[0]
+    def run(self, script, timeout=600):
+        return self.run_many([script], timeout=timeout)[0]
 
 def load_known():
     p = os.path.join(VERIF, 'known_findings.json')
